@@ -490,6 +490,11 @@ pub fn pack_c18_map<P: SimPrefix>(ctx: &mut Ctx, cfg: &Cfg, mw: &MapW<P>, t: &Tr
         return Ok(());
     }
     let salt = ctx.salt ^ ctx.step as u64;
+    // C18 is about representations of entries that exist; if the entry set itself has diverged
+    // from the history model, that is C01's business and the model's representations are moot
+    if ctx.is("C18") && !(mw.model.len() == t.ents.len() && t.ents.iter().all(|e| mw.model.contains_key(&e.key))) {
+        return Err(crate::ctx::Abort::Foreign("C01:contents (entry set diverged from the history model)".into()));
+    }
     // stored representations are the model's
     for e in &t.ents {
         if let Some(x) = mw.model.get(&e.key) {
@@ -557,6 +562,9 @@ pub fn pack_c18_set<P: SimPrefix>(ctx: &mut Ctx, cfg: &Cfg, sw: &SetW<P>, t: &Tr
         return Ok(());
     }
     let salt = ctx.salt ^ ctx.step as u64;
+    if ctx.is("C18") && !(sw.model.len() == t.ents.len() && t.ents.iter().all(|e| sw.model.contains_key(&e.key))) {
+        return Err(crate::ctx::Abort::Foreign("C01:set.contents (member set diverged from the history model)".into()));
+    }
     for e in &t.ents {
         if let Some(x) = sw.model.get(&e.key) {
             chk!(ctx, "C18", *x == e.raw, "set.stored-repr", "set member {} is stored as {} but the most recent insert passed {}", e.key, e.raw, x);
